@@ -30,6 +30,7 @@ fn main() {
     }));
     let args: Vec<String> = std::env::args().collect();
     let cmd = args.get(1).map(|s| s.as_str()).unwrap_or("");
+    progress::init_current_file();
     progress::start_watchdog(std::env::var("VERIF_HANG_SECS").ok().and_then(|s| s.parse().ok()).unwrap_or(120));
     let dbg = cfg!(debug_assertions);
     let profile = if dbg { "dev" } else { "release" };
